@@ -9,4 +9,4 @@ INVARIANT Inv_C09
 INVARIANT Inv_C10
 INVARIANT Inv_Once
 PROPERTY Prop_C09_Monotone
-CHECK_DEADLOCK FALSE
+CHECK_DEADLOCK TRUE
